@@ -196,9 +196,21 @@ func (l *Lifter) enterRange(s *ast.RangeStmt) (n int) {
 			l.pushRename(id.Name, fmt.Sprintf("$k%d", d))
 			n++
 		} else if s.Value == nil {
-			// for i := range xs { … xs[i] … }: the element through its index
-			l.pushRename("\x00"+Canon(&ast.IndexExpr{X: s.X, Index: id}), fmt.Sprintf("$v%d", d))
-			n++
+			// for i := range xs { … xs[i] … }: the element through its index —
+			// unless the key shadows a variable xs itself is written with
+			// (for i := range m[i]): inside the body m[i][i] is then m[j][j],
+			// not the element, and must not be read as one
+			shadows := false
+			ast.Inspect(s.X, func(k ast.Node) bool {
+				if kid, ok := k.(*ast.Ident); ok && kid.Name == id.Name {
+					shadows = true
+				}
+				return true
+			})
+			if !shadows {
+				l.pushRename("\x00"+Canon(&ast.IndexExpr{X: s.X, Index: id}), fmt.Sprintf("$v%d", d))
+				n++
+			}
 		}
 	}
 	if id, ok := s.Value.(*ast.Ident); ok && id.Name != "_" {
